@@ -124,8 +124,9 @@ class V1Parser:
         with convertError(ValueError, MissingAddressData):
             sourcePort, line = line.split(b" ", 1)
 
-        with convertError(ValueError, MissingAddressData):
-            destPort = line.split(b" ")[0]
+        # Nothing may follow the destination port: a further field (or a
+        # stray separator) makes the port itself invalid.
+        destPort = line
 
         with convertError(ValueError, InvalidProxyHeader):
             if networkProtocol == cls.TCP4_PROTO:
